@@ -164,6 +164,31 @@ CLAIMED = {
             "round trips over payload kinds x sizes x levels x windows x takeover x fragmentations through three receive paths, corrupt streams.",
             TB + "Losslessness rests on zlib (not modelled; the round-trip peer uses the same zlib). F37 is an open known finding printed on every run.",
             "Lean 4 proof of bookkeeping (+ machine-checked counterexamples) + differential correspondence with the compiled C", "DESIGN.md §6 C19, docs/C19.md"),
+    "C05": ("proof",
+            "12 Lean theorems over the daemon model: closing_steps, disconnect_post (after any step that emits closed c — EOF/error or a message the "
+            "daemon rejects — c is gone, no element, index entry, fetcher slot or routing entry refers to it, every request routed to it is answered "
+            "exactly once with the shutdown error to its foreign requester, its own in-flight requests are dropped with their timers destroyed), "
+            "subscribers_see_remove, others_untouched (every other peer's elements, fetches, groups and routing entries not requested by c are "
+            "identical), no_send_to_departed / teardown_never_addresses_leaver / no_send_after_close (over every run nothing is ever sent to a "
+            "departed peer). " + DAEMON_TIE + "Families: a victim connection ends at every byte position of length prefix, message, HTTP request "
+            "line, header block, WebSocket frame header and payload, by EOF and by reset, while it owns elements, holds a fetch and is caller and "
+            "owner of in-flight requests, with snapshots before and after; the harness flags any send on a released connection and ASan any "
+            "dangling access. Monitors: state refers to live peers only, others untouched between the two snapshots, replica and routing monitors.",
+            TB + DAEMON_NOTE + "At the model's level a peer and its connection have one lifetime; which C object is released first on each "
+            "transport's close path is judged by ASan and the harness's released-connection check on the real code.",
+            "Lean 4 proof over executable model + differential correspondence with the compiled daemon", "DESIGN.md §6 C05, docs/C05-proofs.md"),
+    "C11": ("proof",
+            "12 Lean theorems: notify_results_ignored / handlers_results_ignored (post-state and the (target, json) sequence of every notification, "
+            "teardown, relay and timeout path do not depend on any send result), parseJsonRpc_independent / fanout_independent (a step depends only on "
+            "the results of the response to the requester and of the routed request to the owner), runs_independent / healthy_peers_unaffected (two "
+            "runs differing only in send results for a faulty set F give every peer outside F identical messages and equal final states), "
+            "answered_exactly_once_under_faults, accept_failure_survived for a model of the repaired accept loop (+ counterexample for the original). "
+            + DAEMON_TIE + "Families: subscribers whose kernel send path errors, blocks or accepts a few bytes, garbage senders, failing accept "
+            "(eight errno values) on every listener. Monitor: each scenario is run twice (faulty / healed) and every healthy peer must receive "
+            "identical messages and the element set must be equal; the daemon must still serve at the end.",
+            TB + DAEMON_NOTE + "The differential family keeps faulty peers to subscribers/bystanders (a faulty requester or owner legitimately changes "
+            "the history; the faulty-owner case is the directed F30 family judged by the C03 monitor).",
+            "Lean 4 proof over executable model + differential correspondence with the compiled daemon", "DESIGN.md §6 C11, docs/C11-proofs.md"),
 }
 
 NOT_YET = "machinery under construction in this round; not yet claimed"
